@@ -590,6 +590,68 @@ def ufunc2 (fn : GQ → GQ → GQ) (pw : Bool) (l r : Val) : M CF :=
               | .error e => .error e
               | .ok res => ufuncWrap self res (ka.join kb) (ufuncValid self l r)
 
+/-! ### ufuncs with two outputs (`np.divmod`, `np.modf`): the tuple branch of `__array_ufunc__` -/
+
+namespace GQ
+/-- `np.floor_divide` on real values -/
+def floorDiv (a b : GQ) : GQ := ⟨((a.re / b.re).floor : Rat), 0⟩
+/-- `np.remainder` on real values (sign of the divisor) -/
+def pymod (a b : GQ) : GQ := ⟨a.re - b.re * ((a.re / b.re).floor : Rat), 0⟩
+end GQ
+
+/-- one element of the result tuple: `Field(m, nvdim=x.shape[-1], value=x, vdims=self.vdims,
+valid=valid, vdim_mapping=self.vdim_mapping)`; no shape check in this branch, every failure
+is `NotImplementedError` -/
+def ufuncPairWrap (self : CF) (m : Mesh) (res : NDA GQ) (k : Kind) (valid : NDA Bool) : M CF :=
+  match mkField m (lastAx res.shape) (.arr res) k self.vdims (some valid) (some self.vmap) none with
+  | .error _ => .error .notImpl
+  | .ok g => .ok g
+
+/-- binary ufunc with two outputs, e.g. `np.divmod(l, r)` (`fn1`, `fn2` the two elementwise
+functions; `cplxOk` says whether the ufunc has a complex loop — `divmod` has none).  The
+tuple of results needs exactly as many field inputs as outputs (`len(result) != len(mesh)`):
+result `j` is rebuilt on the mesh of the `j`-th field input. -/
+def ufunc2pair (fn1 fn2 : GQ → GQ → GQ) (cplxOk : Bool) (l r : Val) : M (CF × CF) :=
+  match firstFld l r with
+  | none => .error .type
+  | some self =>
+    match ufuncInput l with
+    | .error e => .error e
+    | .ok (a, ka) =>
+      match ufuncInput r with
+      | .error e => .error e
+      | .ok (b, kb) =>
+        match ufuncMeshOk self l with
+        | .error e => .error e
+        | .ok _ =>
+          match ufuncMeshOk self r with
+          | .error e => .error e
+          | .ok _ =>
+            if ¬ cplxOk ∧ (ka = .complex ∨ kb = .complex) then .error .type
+            else
+              match npBin fn1 a b with
+              | .error e => .error e
+              | .ok r1 =>
+                match npBin fn2 a b with
+                | .error e => .error e
+                | .ok r2 =>
+                  match l, r with
+                  | .fld f, .fld o =>
+                    (match ufuncPairWrap self f.mesh r1 (ka.join kb) (ufuncValid self l r) with
+                     | .error e => .error e
+                     | .ok g1 =>
+                       match ufuncPairWrap self o.mesh r2 (ka.join kb) (ufuncValid self l r) with
+                       | .error e => .error e
+                       | .ok g2 => .ok (g1, g2))
+                  | _, _ => .error .notImpl
+
+/-- unary ufunc with two outputs (`np.modf(f)`, `np.frexp(f)`): two results, one mesh —
+always `NotImplementedError` (after the mesh check) -/
+def ufunc1pair (self : CF) : M (CF × CF) :=
+  match ufuncMeshOk self (.fld self) with
+  | .error e => .error e
+  | .ok _ => .error .notImpl
+
 /-! ## Expression trees -/
 
 inductive UnOp where
